@@ -1,5 +1,5 @@
 """C07 - incomplete frames are reported as UnmarshalingException, never as a frame."""
-from pbt import strategies as S
+from pbt import strategies as S, wire
 from pbt.lib import UnmarshalingException, call, frame, make_frame
 from pbt.runner import Component, Violation, lib_site
 
@@ -38,9 +38,13 @@ def cut_points(n, tier):
 
 def check_with(tier):
     def check(case):
-        obj = call('construct', make_frame, case)
-        data = call('marshal', frame.marshal, obj, case['ch'])
-        k = case['kind']
+        if 'wire' in case:       # a peer-made frame rendered by the reference renderer
+            data = wire.render_frame(case['wire'])[0]
+            k = case['wire']['kind']
+        else:
+            obj = call('construct', make_frame, case)
+            data = call('marshal', frame.marshal, obj, case['ch'])
+            k = case['kind']
         cuts = cut_points(len(data), tier)
         for cut in cuts:
             prefix = data[:cut]
@@ -79,7 +83,11 @@ def cases(tier):
 
 
 def nontrivial(case):
-    return case['kind'] not in ('heartbeat', 'protocol')
+    return case.get('kind', 'wire') not in ('heartbeat', 'protocol')
+
+
+def catalogue(tier, shard, nshards):
+    return [{'wire': c, 'tier': tier} for c in wire.catalogue_frames()][shard::nshards]
 
 
 def fixed(tier, shard, nshards):
@@ -97,6 +105,10 @@ COMPONENTS = [
     Component('fixed', check, cases=fixed, nontrivial=nontrivial,
               shards={'quick': 6, 'thorough': 6},
               describe='smallest frame of every kind and the largest body'),
+    Component('catalogue', check, cases=catalogue, nontrivial=nontrivial,
+              exhaustive=True,
+              describe='every strict prefix of one peer-made frame per method class '
+                       '(all 19 table tags), headers with two flag words, body'),
     Component('prefixes', check, strategy=cases, nontrivial=nontrivial,
               budget={'quick': 6400, 'thorough': 64000},
               describe='every strict prefix of generated frames of all kinds'),
